@@ -14,7 +14,7 @@ RULES = {
     "R-ret": "return value given a name so `ensures` can refer to it (no semantic change)",
     "R-log": "logging statement deleted (debug!/info!/trace!/error!)",
     "R-unsafe": "`unsafe { E }` -> `{ E }`; Rust's own unsafety obligations are not checked by Verus",
-    "R-assert": "assert!/assert_eq!/debug_assert! -> `if !(c) { rt_panic() }` with rt_panic() requires false: panic-freedom becomes a proof obligation",
+    "R-assert": "assert!/assert_eq!/debug_assert! -> `if !(c) { rt_panic() }` with rt_panic() requires false: panic-freedom becomes a proof obligation; where the assertion is itself the guard that establishes the postcondition (ProgramCounter::new / jump) it becomes `if !(c) { rt_guard() }` (may fire, never returns) and the contract is stated on return",
     "R-ice": "ice!/panic!/unreachable!/unwrap-on-None -> rt_panic() likewise",
     "R-lock": "`.lock().unwrap()` / `.read().unwrap()` / `.write().unwrap()` dropped: the function is verified as the critical section it is; lock acquisition, poisoning and concurrency are not modelled",
     "R-index": "Index/IndexMut sugar on Stack/StackFrame replaced by the body of the real Index impl (`self.values[i]`)",
